@@ -373,8 +373,41 @@ fn check_data_variants(run: &mut Run) {
             Err(p) => run.violation(Violation { signature: format!("data-constant-panics|{name}"), what: format!("{hexs}: {p}"), case }),
         }
     }
+    // The same variants, fed in as *script bytes* (flat built by the independent encoder with
+    // the raw CBOR embedded), at top level and nested inside list / pair constants: decoding
+    // and re-encoding must give the bytes back wherever the Data constant sits.
+    use vcore::flat_ref::{program_flat_raw_data, RawShape};
+    let mut nested = 0u64;
+    for (name, hexs) in data_cbor_variants() {
+        let cbor = hex::decode(&hexs).unwrap();
+        let mut top_preserved = false;
+        for shape in [RawShape::Top, RawShape::InList, RawShape::InPair, RawShape::InListOfPairs] {
+            let bytes = program_flat_raw_data((1, 1, 0), shape, &cbor);
+            let b = bytes.clone();
+            let r = guarded(move || Program::<DeBruijn>::from_flat(&b).map_err(|e| e.to_string()).and_then(|p| p.to_flat().map_err(|e| e.to_string())));
+            nested += 1;
+            let case = json!({"engine":"c08-data-cbor-script","name":name,"cbor":hexs,"shape":format!("{:?}", shape)});
+            match r {
+                Err(p) => run.violation(Violation { signature: format!("data-constant-panics|{name}"), what: format!("decoding a script with Data CBOR {hexs} ({name}, {:?}) panicked: {p}", shape), case }),
+                Ok(Err(_)) => {} // rejected: nothing to preserve
+                Ok(Ok(again)) => {
+                    if shape == RawShape::Top {
+                        top_preserved = again == bytes;
+                        // (a top-level difference is already reported above under data-cbor-not-preserved)
+                    } else if again != bytes && top_preserved {
+                        run.violation(Violation {
+                            signature: format!("data-cbor-not-preserved-when-nested|{:?}", shape),
+                            what: format!("a script whose {:?} constant holds Data encoded as {hexs} ({name}) is re-serialised as different bytes ({} -> {}) although the same Data at top level is preserved: bytes, hash and address of a third-party script change on a decode/encode round trip", shape, hex::encode(&bytes), hex::encode(&again)),
+                            case,
+                        });
+                    }
+                }
+            }
+        }
+    }
     run.set("data_cbor_variants", n);
     run.set("data_cbor_variants_accepted_by_decoder", representable);
+    run.set("data_cbor_variant_scripts_round_tripped", nested);
 }
 
 pub fn part(run: &mut Run, tier: Tier) {
